@@ -496,7 +496,9 @@ func respMessage(id [stun.TransactionIDSize]byte, extra int) []byte {
 	m.TransactionID = id
 	m.Type = stun.BindingSuccess
 	m.WriteHeader()
-	m.Add(stun.AttrSoftware, bytes.Repeat([]byte{byte(0x40 + extra%50)}, extra))
+	if extra >= 0 {
+		m.Add(stun.AttrSoftware, bytes.Repeat([]byte{byte(0x40 + extra%50)}, extra))
+	}
 	return append([]byte(nil), m.Raw...)
 }
 
